@@ -153,12 +153,12 @@ PIPE = ["is_not_too_large", "is_recent", "is_certain_kind", "is_author_blacklist
 @st.composite
 def st_pipeline(draw):
     chosen = draw(st.lists(st.sampled_from(PIPE), min_size=1, max_size=5, unique=True))
-    cfg = {"max_event_size": 20, "oldest_event": 1000, "valid_kinds": [1, 7], "pubkey_blacklist": [E.PKS[1]],
+    cfg = {"max_event_size": 20, "oldest_event": 1000, "valid_kinds": [1, 7, 20000], "pubkey_blacklist": [E.PKS[1]],
            "hellthread_limit": 2}
     evs = []
     for i in range(draw(st.integers(1, 4))):
         k = draw(st.integers(0, 2))
-        kind = draw(st.sampled_from([1, 1, 7, 4]))
+        kind = draw(st.sampled_from([1, 1, 7, 4, 20000]))
         content = "x" * draw(st.sampled_from([0, 20, 21, 50]))
         ts = NOW + draw(st.sampled_from([0, -1000, -1001, 3600, 3601, -5]))
         tags = [["p", E.PKS[j]] for j in range(draw(st.sampled_from([0, 2, 3])))]
@@ -166,6 +166,10 @@ def st_pipeline(draw):
         if draw(st.integers(0, 5)) == 0:
             ev["sig"] = "00" * 64
         evs.append(ev)
+        if draw(st.integers(0, 3)) == 0:
+            # the same id again with other contents (after the original was ephemeral, deleted or is still there)
+            forged = dict(ev, content="y" * draw(st.sampled_from([5, 21, 50])), pubkey=draw(st.sampled_from([ev["pubkey"], E.PKS[1]])))
+            evs.append({"forged": forged, "delete_original_first": draw(st.booleans())})
     return {"backend": draw(st.sampled_from(["kv", "sql"])), "validators": chosen, "cfg": cfg, "events": evs}
 
 
@@ -192,7 +196,15 @@ class Pipelines(Sub):
             await w.send(["REQ", "w", {"since": 1}])
             seen = set()
             for ev in case["events"]:
-                if ev["id"] in seen:
+                if "forged" in ev:
+                    if ev["delete_original_first"]:
+                        await rig.storage.delete_event(ev["forged"]["id"])
+                        rig.pump()
+                        await rig.settle()
+                    ev = ev["forged"]
+                    if ev["id"] in await rig.dump():
+                        continue  # the original is stored: the storage reports a duplicate before anything else matters
+                elif ev["id"] in seen:
                     continue
                 seen.add(ev["id"])
                 rejecting = []
